@@ -48,6 +48,21 @@ struct Frame {
 
 pub struct C11;
 
+/// a value: mostly from the small pool (so that equal values meet), sometimes one that a text-based
+/// implementation would mangle
+fn gen_value(rng: &mut Rng) -> String {
+    match rng.below(40) {
+        0 => "x".repeat(3000 + rng.usize(3000)),
+        1 => "line\r\nbreak\n".to_string(),
+        // (no ${..} / %{..}: the operations go through the runner's expansion, which is not this property)
+        2 => "$b {b} $".to_string(),
+        3 => "% {c} 100%".to_string(),
+        4 => "\"quoted\" # not a comment".to_string(),
+        5 => " padded ".to_string(),
+        _ => rng.pick(&VALUES).to_string(),
+    }
+}
+
 fn gen_names(rng: &mut Rng) -> Vec<String> {
     let n = rng.usize(4);
     (0..n).map(|_| rng.pick(&NAMES).to_string()).collect()
@@ -57,13 +72,13 @@ fn gen_op(rng: &mut Rng) -> Op {
     match rng.below(20) {
         0 => {
             if rng.chance(1, 2) {
-                Op::Set(rng.pick(&VALUES).to_string())
+                Op::Set(gen_value(rng))
             } else {
                 Op::SetOr((0..2 + rng.usize(3)).map(|_| rng.pick(&["", "0", "false", "NO", "a", "two words", "False"]).to_string()).collect())
             }
         }
         1 | 2 => Op::Unset((0..1 + rng.usize(3)).map(|_| rng.pick(&NAMES).to_string()).collect()),
-        3 | 4 | 5 | 6 => Op::SetByName(rng.pick(&NAMES).to_string(), if rng.chance(4, 5) { Some(rng.pick(&VALUES).to_string()) } else { None }),
+        3 | 4 | 5 | 6 => Op::SetByName(rng.pick(&NAMES).to_string(), if rng.chance(4, 5) { Some(gen_value(rng)) } else { None }),
         7 | 8 => Op::GetByName(rng.pick(&NAMES).to_string()),
         9 => Op::IsDefined(rng.pick(&NAMES).to_string()),
         10 => Op::GetAllVarNames,
@@ -340,7 +355,7 @@ impl Prop for C11 {
             _ => 10 + rng.usize(30),
         };
         let n_init = rng.usize(5);
-        let mut init: Vec<(String, String)> = (0..n_init).map(|_| (rng.pick(&NAMES).to_string(), rng.pick(&VALUES).to_string())).collect();
+        let mut init: Vec<(String, String)> = (0..n_init).map(|_| (rng.pick(&NAMES).to_string(), gen_value(rng))).collect();
         let mut ops: Vec<Op> = (0..n).map(|_| gen_op(rng)).collect();
         if rng.chance(1, 20) {
             // big mode: more than 16 variables, a long value, a stack deeper than 5 with long copy lists
